@@ -63,6 +63,10 @@ CHECKS = {
  'C19': dict(cat='exploration', technique='exhaustive enumeration of nesting chains (namespace depth x template depth x type position) and file sizes, with a deterministic cost oracle (pyparsing function activations via sys.monitoring) and consecutive-depth ratio bounds',
              text='All (namespace depth a, template-argument depth b) with a+b <= 10 (16) for a templated type in each of 6 positions, and files of 25..200 (400) declarations of 8 kinds: the number of pyparsing function activations during Module.parseString (deterministic, no wall clock) may grow by at most a factor 1.7 per extra nesting level from depth 6 on (degree-3 polynomial: <= 1.59; exponential re-parsing: >= 2) and per-declaration cost must stay within 2x of its value at 25 declarations.',
              note='Cost model = interpreter-level activations inside pyparsing; CPU seconds recorded as evidence only.', ref='2/C19'),
+
+ 'C14': dict(cat='model_checking', technique='explicit-state exploration of wrapper-call histories on the real objects, exhaustive enumeration of file-system interleavings of concurrent wrapper runs under an own baton-passing scheduler (iterative preemption bounding), and an exhaustive grid of process configurations (hash seed x cwd x locale) with an open() audit',
+             text='(1) one subprocess per (PYTHONHASHSEED 0..7 (0..63+random) x 3 working directories x 6 locale/encoding environments) for ASCII and non-ASCII inputs: every output digest of both generators over a 7-module corpus must be identical, and an audit hook shows writes only to requested outputs and reads only of inputs/templates; (2) BFS over all histories of <=2 (3) calls over {reused PybindWrapper, fresh PybindWrapper, fresh MatlabWrapper} x corpus: the last output equals that of a fresh wrapper; (3) 2-3 wrapper runs writing different targets into one directory, executed under our scheduler with scheduling points at every open/write/close/mkdir/makedirs/isdir, all interleavings within a preemption bound (2 / 1 quick, unbounded / 2-3 thorough): no run fails, the directory equals the union of the serial results; failing schedules are replayed to confirm determinism.',
+             note='Scheduling points are file-system calls (generation between them is atomic); installed locales only; reuse of one wrapper object exercised for PybindWrapper only.', ref='2/C14'),
 }
 NOT_YET = 'check not built yet in this session (see DESIGN.md for the planned exhaustive exploration)'
 
